@@ -419,6 +419,15 @@ theorem csv_table_roundtrip_semicolon (cols : List Bytes) (hcols : ∀ n ∈ col
   rw [← AslProofs.Csv.readTableT_nil]
   exact AslProofs.Csv.table_roundtrip_semi cols hcols h2 rows hrows
 
+/-- **csv_table_roundtrip_tab.**  The same after `setSeparator('\t')` (the reader then keeps the decimal point): two or
+    more identifier column names, cells as in `csv_table_roundtrip`. -/
+theorem csv_table_roundtrip_tab (cols : List Bytes) (hcols : ∀ n ∈ cols, ColOK n) (h2 : 2 ≤ cols.length)
+    (rows : List (List Cell)) (hrows : ∀ r ∈ rows, r.length = cols.length ∧ ∀ c ∈ r, CellWF c) :
+    Csv.readTable (Csv.writeItemsG 9 46 cols (rows.flatten.map .cell)) =
+      { columns := cols, rows := rows.map (·.map expected) } := by
+  rw [← AslProofs.Csv.readTableT_nil]
+  exact AslProofs.Csv.table_roundtrip_tab cols hcols h2 rows hrows
+
 /-- **csv_number_exact_Q.**  Every number text `[-]digits[.digits][(e|E)[+|-]digits]` with at most 18 mantissa digits
     and at most 9 exponent digits (in particular every `%.15g` output) is recognised as a number by `myisnumber`;
     on it the code's `long long y1` stays below 2^63 and its `int` exponent within ±2^31, so the model's unbounded
